@@ -31,8 +31,22 @@ META = {
             "theorems, carried by the exploration only: (i) that the live count L at collection points is bounded by "
             "the program's live data and the allocations A between points by 8192 x (allocation of one instruction) — "
             "this is the first sentence of C12 for concrete programs and is what oracle (b) tests per allocation kind; "
-            "(ii) that the VM's heap obeys Plain and the WF hypotheses (sizes, no marks, shape) — checked on every "
-            "snapshot of stream (c); (iii) T12.2 speaks about C07's machine model (tied to run.rs by C07's lock-step "
+            "(ii) [upgraded to theorems about the concrete machine of Vm/ConcreteHeap.lean: "
+            "no_floating_garbage_of_goodI / no_floating_garbage_machine / forced_gc_no_floating_garbage_machine - "
+            "started in a state satisfying the invariant GoodI, in EVERY reachable state (any number of instructions, "
+            "collections at any boundaries), whenever run_gc collects (always, with the forcing hook: "
+            "forced_gc_collects), the allocated set of the returned state = Spec.Live from the machine roots rootsOf s, "
+            "read on the heap before and on the heap after. plainRoots, the value/stack/environment/vector/"
+            "continuation clauses of plainHeap and the WF facts (sizes, no marks, shape) are now CONSEQUENCES of GoodI "
+            "(Lemmas/MachineGarbage.lean), propagated by goodI_reaches under the hypotheses of T03.5/T13.3: "
+            "ExtLaws/ExtGood, SizeBounded, StackDiscAlong. The one clause of plainHeap that GoodI does not carry is the "
+            "decoding discipline of code objects (CodePlain: an operand cell is never an opcode); it is proved to be an "
+            "invariant of its own (codePlain_reaches: run_one - through the generic step_rel over all 16 opcodes - and "
+            "run_gc never create or change a code object), so the theorems assume it of the INITIAL state and, as the "
+            "law ExtCodePlain, of the unmodelled operations (generic builtins, eval's compiler, VPUSH), like ExtGood; "
+            "hypotheses shown jointly satisfiable on the HALT demo state with failingExt.] What remains checked per "
+            "snapshot of stream (c) only: that the REAL VM's heap obeys Plain / WF / the decoding discipline (i.e. that "
+            "the model's GoodI and the Ext laws describe the Rust code); (iii) T12.2 speaks about C07's machine model (tied to run.rs by C07's lock-step "
             "stream), rendered into collector cells by an arbitrary rendering that maps Undefined to Undefined. "
             "Reachability is stated over the pre-collection heap (contents of reachable cells are unchanged by C03's "
             "T03.2). Iteration counts: quick n <= 10^4 (10n = 10^5) for cheap kinds and one decade less for "
@@ -59,7 +73,9 @@ THEOREMS = ["Marwood.Proofs.C12." + t for t in [
     "alloc_refines_policy", "runGc_refines_policy", "without_collection_points_unbounded",
     "undefined_global_binding_retains_symbol",
     "allocated_after_gc_iff_live_after", "alloc_refines_policy_wf", "used_after_gc_eq_live_count",
-    "heap_run_capacity_bounded", "pre_h4"]]
+    "heap_run_capacity_bounded", "pre_h4",
+    "no_floating_garbage_of_goodI", "no_floating_garbage_machine", "forced_gc_no_floating_garbage_machine",
+    "sHalt_codePlain", "failingExt_codePlain"]]
 
 CHEAP = ["pairs", "vectors", "strings", "symbols", "bignums", "sliced"]
 MEDIUM = ["closures", "continuations"]
